@@ -3,7 +3,7 @@ NEXT FNext
 CONSTANTS
   Mode = "pairs"
   Depth = 1
-  NFixed = {}
+  NFixed = {"len_reversed_mirrored"}
   NBug = "none"
   NVSpace = "none"
   NCompoundV = "none"
